@@ -83,6 +83,10 @@ MUTANTS = [
      "    diff = limit - param\n    return torch.heaviside(diff, zeros(diff, shape=())) * update", "    diff = limit - param\n    return torch.heaviside(diff + 0.05, zeros(diff, shape=())) * update"),
     ("bound_smult_range_ignored", "C10", 2000, "inferno/functional/bounding.py",
      "    return (limit - param) / range * update", "    return (limit - param) / max(range, 1.0) * update"),
+    ("syn_select_drops_tolerance", "C04", 8000, "inferno/neural/synapses/mixins.py",
+     "                interpolation,\n                tolerance=tolerance,\n                interp_kwargs=interp_kwargs,", "                interpolation,\n                interp_kwargs=interp_kwargs,"),
+    ("fold_view_drops_tolerance", "C07", 8000, "inferno/observe/reducers/base.py",
+     "self.data_.select(time, self.interpolate, tolerance=tolerance)", "self.data_.select(time, self.interpolate)"),
     ("syn_clamp_uses_recordsz", "C04", 3000, "inferno/neural/synapses/mixins.py",
      "        bounded_selector = selector.clamp(min=0, max=value.duration)", "        bounded_selector = selector.clamp(min=0, max=value.dt * value.recordsz)"),
     ("syn_overbound_strict", "C04", 3000, "inferno/neural/synapses/mixins.py",
